@@ -17,33 +17,44 @@ LEVEL = 'model_checking'
 RULE = ('per configuration (template AST from the documented grammar: 0-3 static names, optional wildcard with 1-4 '
         'alternatives over $id/$title/$title(2)/sect$num/sect$num(3)/$id-$num/${jobname}_$id, optional text around the '
         'brackets, x forbidden-character set x reserved-name set) a breadth-first search over ALL request histories up '
-        'to the depth bound (quick 6, thorough 12; 6 for the three templates whose first alternative is $id-$num); an '
+        'to the depth bound (quick 6, thorough 12; 5 / 6 for the five templates with an $id-$num alternative); an '
         'event = one request binding id and title (each possibly unbound; values chosen to repeat, collide, contain '
         'forbidden characters, several words, no word, a period); every history is replayed on a fresh Filenames object '
         'in lock-step with the reference model; states merged on (model states, implementation dump).  A case = one '
         'history; it is non-trivial when its last request got past the literal static names (a variable or $num '
         'candidate was considered); distinct = distinct (configuration, spelling, history); outcomes = distinct observed '
-        'result sequences.  Plus every template in the two other spellings to depth 3, and a family of long constant '
-        'histories (120 requests) for the give-up bound.')
+        'result sequences.  Plus every template in the two other spellings to depth 3, a family of long constant '
+        'histories (120 requests) for the give-up bound, and the values family: 14 templates with widths 1..3 on '
+        '$title/$id/$jobname x 5 forbidden-character settings (replace by -, delete, replace by __, only blank, none) x '
+        '2 reserved sets, every history of length <= 3 (thorough 4) over values with doubled/leading/trailing blanks, '
+        'tab, newline, forbidden characters, / and period.')
 ASSUMPTIONS = [
     'oracle is a hand-written model of the property statement (vp/refs/c15_filenames_model.py)',
     'requests bind variables the way the renderer does: assign into Filenames.variables, then call the object',
     'static names of the explored templates are literals, ${jobname} (initial namespace) or $num names; static '
     'templates over per-request variables are outside the alphabet (the statement does not define them)',
-    'variable values are str; a template mentions each variable at most once; widths are >= 1',
+    'variable values are str; an alternative mentions each variable at most once; widths are >= 1',
+    'a static name whose variables are not all bound at the request that reaches it is skipped and not retried (the '
+    'statement is silent; the docstring says each name of the list is returned once) -- one template of the values family',
+    'a caller-supplied variable named `num` is explored only in the initial namespace of a template whose alternatives '
+    'are all numbered; binding `num` per request is outside the alphabet (it makes un-numbered candidates advance $num)',
+    'the replacement string contains no forbidden character (the real code replaces character by character in sequence)',
     'the generator-local pass counter is not part of the merge key: within the depth bound it stays below 60 '
     '(asserted), so the give-up test `passes > 100` cannot depend on it; the long-history family covers that counter',
     'the long-history family (120 requests) goes beyond the length-12 quantifier of the property on purpose',
 ]
 
 DEFAULT_BAD = ': #$%^&*!~`"\'=?/{}[]()|<>;\\,.'       # plasTeX.Config files/bad-chars default (own copy)
-CHARSUBS = {'default': (DEFAULT_BAD, '-'), 'none': None, 'blank': (' ', '-')}
+CHARSUBS = {'default': (DEFAULT_BAD, '-'), 'none': None, 'blank': (' ', '-'),
+            # forbidden characters deleted (empty replacement) / replaced by several characters
+            'delete': (DEFAULT_BAD, ''), 'multi': (': /.', '__')}
+CHARSUB_AS_TUPLE = ('delete', 'multi')      # the renderer passes a tuple, older callers a list
 RESERVED = {'none': [], 'some': ['index.html', 'a.html', 'sect2.html', 'sect002.html', 'b-3.html']}
 INIT = {'jobname': 'job'}
 EXT = '.html'
 
-ID_VALUES = [None, 'a', 'b', 'a b:c', 'a.b']
-TITLE_VALUES = [None, 'T', 'T U V', 'a', '']
+ID_VALUES = [None, 'a', 'b', 'a b:c', 'a.b', 'x/y']
+TITLE_VALUES = [None, 'T', 'T U V', 'a', '', 'T  U\tW']      # the last one: same first two words as 'T U V'
 ID_IRRELEVANT = [None, 'a']
 TITLE_IRRELEVANT = [None, 'T']
 
@@ -128,8 +139,32 @@ TEMPLATES = [
     T([(lit('sect1'),), S_TOC], [A_SECT]),
 ]
 
-QUICK_COMBOS = [(cs, rs) for cs in ('default', 'none', 'blank') for rs in ('none', 'some')]
-THOROUGH_COMBOS = [(cs, rs) for cs in ('default', 'none', 'blank') for rs in ('none', 'some')]
+QUICK_COMBOS = [(cs, rs) for cs in ('default', 'none', 'blank', 'delete', 'multi') for rs in ('none', 'some')]
+THOROUGH_COMBOS = QUICK_COMBOS
+
+# ---- the "values" family: irregular white space, forbidden characters, '/' and '.' in variable values, widths 1..3
+VALUES = ['Two  blanks between words', 'Two blanks\tx', ' leading blank here', 'trailing blank ', 'tab\tsep words',
+          'Broken over\ntwo source lines', 'A: b/c', 'x.y/z w', 'one']
+VALUES_ID2 = [None, 'A: b/c', 'x.y/z w', ' lead  blank']
+VALUES_TITLE2 = [None, 'Two  blanks between words', 'Two blanks\tx', 'Broken over\ntwo source lines']
+VALUE_INIT = {'jobname': 'my  job/v.1 x'}
+VALUE_RESERVED = {'none': [], 'vres': ['Two-blanks.html', 'Twoblanks.html', 'Two blanks.html', 'Two__blanks.html',
+                                       'A.html', 'one.html']}
+VALUE_TEMPLATES = (
+    [T([], [(var('title', w),), A_SECT]) for w in (1, 2, 3)] +
+    [T([], [(var('id', w),), A_SECT]) for w in (1, 2, 3)] +
+    [T([], [A_TITLE, A_SECT]),
+     T([], [A_ID, A_SECT]),
+     T([], [(var('title', 2), lit('.'), var('id', 1)), A_SECT3]),
+     T([(var('jobname', 1),), S_TOC], [(var('title', 3),), A_SECT]),
+     T([(var('jobname', 2),), (var('jobname'),)], [(var('id', 2),)], post=(lit('.htm'),)),
+     T([(var('id', 2),), S_TOC], [(var('title', 1),), A_SECT]),
+     T([], [(var('id', 3), lit('/'), var('title', 2)), (var('id', 1),)]),
+     # last one: run with a caller-supplied variable called `num` in the initial namespace (VALUE_INIT_NUM); every
+     # alternative is numbered, so "$num is the generator's number" is the only reading of the statement
+     T([], [(var('title', 1), lit('-'), var('num')), A_SECT])])
+VALUE_INIT_NUM = {'jobname': 'job', 'num': '7'}
+VALUE_DEPTH = {'quick': 3, 'thorough': 4}
 
 LONG_TEMPLATES = [T([], [A_SECT]), T([S_INDEX], [A_ID, (lit('sect'), var('num', 4))])]
 LONG_RESERVED = {'none': [], 'hit': ['sect105.html', 'sect0105.html'],
@@ -139,7 +174,7 @@ LONG_EVENTS = [[None, None], ['a', None]]
 LONG_LEN = 120
 SPELLING_DEPTH = 3
 MEMO_MAX = 400000
-SHALLOW_DEPTH = 6
+SHALLOW_DEPTH = {'quick': 5, 'thorough': 6}
 STATE_CAP = 150000          # per configuration; a guard, not reached with the bounds above
 
 
@@ -191,10 +226,10 @@ def tup(item):
     return tuple(tuple(p) for p in item)
 
 
-def model_config(t, charsub, reserved):
+def model_config(t, charsub, reserved, init=None):
     cs = CHARSUBS[charsub]
     alts = [tup(t['pre'] + a + t['post']) for a in t['alts']]
-    return M.Config([tup(s) for s in t['static']], alts, INIT, cs[0] if cs else '', cs[1] if cs else '',
+    return M.Config([tup(s) for s in t['static']], alts, init or INIT, cs[0] if cs else '', cs[1] if cs else '',
                     EXT, reserved)
 
 
@@ -208,9 +243,6 @@ def mentioned(t):
 def events_for(t, tier, charsub='blank'):
     m = mentioned(t)
     ids = ID_VALUES
-    if tier == 'quick':
-        # quick: the period-bearing id only where periods survive, the blank/colon one only where something is replaced
-        ids = [None, 'a', 'b', 'a.b' if charsub == 'none' else 'a b:c']
     if 'id' not in m:
         ids = ID_IRRELEVANT
     titles = TITLE_VALUES if 'title' in m else TITLE_IRRELEVANT
@@ -293,7 +325,7 @@ def _both_limits(seconds):
         yield
 
 
-def replay_impl(t, charsub, reserved, history, sp, limit=1.5, spec=None, armed=False):
+def replay_impl(t, charsub, reserved, history, sp, limit=1.5, spec=None, armed=False, init=None):
     """Replay a history on a fresh object.  -> (results, dump, passes, invariant error or None)"""
     from plasTeX.Filenames import Filenames
     if spec is None:
@@ -306,7 +338,8 @@ def replay_impl(t, charsub, reserved, history, sp, limit=1.5, spec=None, armed=F
     seen = set()
     try:
         with guard(limit):
-            fn = Filenames(spec, list(cs) if cs else None, dict(INIT), EXT, inv)
+            arg = None if not cs else (tuple(cs) if charsub in CHARSUB_AS_TUPLE else list(cs))
+            fn = Filenames(spec, arg, dict(init or INIT), EXT, inv)
             for ev in history:
                 for k, v in bindings(ev).items():
                     fn.variables[k] = v
@@ -330,7 +363,8 @@ def replay_impl(t, charsub, reserved, history, sp, limit=1.5, spec=None, armed=F
     except (core.Timeout, _CpuTimeout):
         if limit < 10:
             # confirm with a generous limit before calling it non-termination
-            return replay_impl(t, charsub, reserved, history, sp, limit=8.0, spec=spec, armed=armed)
+            return replay_impl(t, charsub, reserved, history, sp, limit=8.0, spec=spec, armed=armed,
+                               init=init)
         results.append('timeout')
         return results, ('timeout',), 0, 'request %d did not terminate within %.1f s of CPU time' % (len(results), limit)
     return results, dump, passes, bad
@@ -402,10 +436,10 @@ def pick(survivors):
     return d0
 
 
-def judge_history(t, charsub, reserved, history, sp, long_family=False):
+def judge_history(t, charsub, reserved, history, sp, long_family=False, init=None):
     """Whole-history verdict, everything rebuilt from the arguments (used by replay)."""
-    cfg = model_config(t, charsub, reserved)
-    obs, dump, passes, bad = replay_impl(t, charsub, reserved, history, sp)
+    cfg = model_config(t, charsub, reserved, init)
+    obs, dump, passes, bad = replay_impl(t, charsub, reserved, history, sp, init=init)
     exp = M.run(cfg, 0, [bindings(e) for e in history])
     spec = print_template(t, sp)
     if bad:
@@ -426,7 +460,7 @@ def judge_history(t, charsub, reserved, history, sp, long_family=False):
 def replay(case):
     t = case['template']
     v, fids, exp, obs, detail = judge_history(t, case['charsub'], case['reserved'], case['history'],
-                                              case.get('spelling', 0), case.get('long', False))
+                                              case.get('spelling', 0), case.get('long', False), case.get('init'))
     if v == 'known':
         f = core.Findings()
         notopen = [x for x in fids if not f.is_open(x)]
@@ -442,6 +476,8 @@ def make_case(block, history):
          'history': [list(e) for e in history], 'spelling': block['spelling']}
     if block.get('long'):
         c['long'] = True
+    if block.get('init'):
+        c['init'] = block['init']
     return c
 
 
@@ -477,12 +513,17 @@ def _search(block):
     rep = core.Report()
     t, charsub, reserved, sp = block['template'], block['charsub'], block['reserved'], block['spelling']
     depth = block['depth']
-    cfg = model_config(t, charsub, reserved)
+    init = block.get('init')
+    cfg = model_config(t, charsub, reserved, init)
     long_family = bool(block.get('long'))
-    order = dev_sets(t, charsub, long_family)
+    # candidate explanations carried through the search: the strict model and the sets of OPEN deviations.
+    # (A deviation that is not listed as open is a violation whether or not it explains the results; replay()
+    # still names it in the detail text.)
+    ob = open_bits()
+    order = [d for d in dev_sets(t, charsub, long_family) if d & ~ob == 0]
     events = [tuple(e) for e in block['events']]
     ev_b = [bindings(e) for e in events]
-    cfgid = (block['tindex'], charsub, tuple(reserved), long_family, sp, depth)
+    cfgid = (block['tindex'], charsub, tuple(reserved), long_family, sp, depth, block.get('family'))
     root_models = tuple((d, M.initial_state(cfg)) for d in order)
     spec = print_template(t, sp)
     memo = {}
@@ -500,7 +541,8 @@ def _search(block):
                 for ei in range(len(events)):
                     ev = events[ei]
                     h2 = hist + (ev,)
-                    obs, dump, passes, bad = replay_impl(t, charsub, reserved, h2, sp, spec=spec, armed=True)
+                    obs, dump, passes, bad = replay_impl(t, charsub, reserved, h2, sp, spec=spec, armed=True,
+                                                             init=init)
                     rep.traces += 1
                     rep.transitions += 1
                     strict_before = models[0][1] if models and models[0][0] == 0 else None
@@ -588,10 +630,10 @@ def run(tier, seed, rep):
     shallow = {}
     for ti, t in enumerate(TEMPLATES):
         d = depth
-        if t['alts'] and tup(t['alts'][0]) == A_IDNUM:
-            # a first alternative that spells both the request's id and $num makes every history a distinct
-            # state (5^n issued sets): these templates are searched to SHALLOW_DEPTH in both tiers
-            d = min(depth, SHALLOW_DEPTH)
+        if any(M.numbered(tup(a)) and set(M.variables_of(tup(a))) - set(INIT) for a in t['alts']):
+            # an alternative that spells both a request variable and $num makes nearly every history a distinct
+            # state (issued sets like {a-1, b-2, a-3}): these templates are searched to SHALLOW_DEPTH only
+            d = min(depth, SHALLOW_DEPTH[tier])
             shallow[print_template(t, 0)] = d
         for cs, rs in combos:
             blocks.append({'tindex': ti, 'template': t, 'charsub': cs, 'reserved': RESERVED[rs], 'spelling': sp,
@@ -602,6 +644,24 @@ def run(tier, seed, rep):
             if sp2 != sp:
                 blocks.append({'tindex': ti, 'template': t, 'charsub': 'blank', 'reserved': RESERVED['some'],
                                'spelling': sp2, 'depth': SPELLING_DEPTH, 'events': events_for(t, tier, 'blank')})
+    # values family: irregular white space / forbidden characters / path and extension characters in the values
+    vdepth = VALUE_DEPTH[tier]
+    nvalue = 0
+    for ti, t in enumerate(VALUE_TEMPLATES):
+        m = mentioned(t)
+        if 'id' in m and 'title' in m:
+            evs = [[i, ti2] for i in VALUES_ID2 for ti2 in VALUES_TITLE2]
+        elif 'id' in m:
+            evs = [[v, None] for v in [None] + VALUES]
+        else:
+            evs = [[None, v] for v in [None] + VALUES]
+        for cs in ('default', 'none', 'blank', 'delete', 'multi'):
+            for rs in ('none', 'vres'):
+                nvalue += 1
+                blocks.append({'tindex': 2000 + ti, 'template': t, 'charsub': cs, 'reserved': VALUE_RESERVED[rs],
+                               'spelling': sp, 'depth': vdepth, 'events': evs, 'family': 'values',
+                               'init': VALUE_INIT_NUM if ti == len(VALUE_TEMPLATES) - 1 else
+                               (VALUE_INIT if 'jobname' in m else None)})
     for ti, t in enumerate(LONG_TEMPLATES):
         for rs in ('none', 'hit', 'run'):
             for ev in LONG_EVENTS:
@@ -627,6 +687,8 @@ def run(tier, seed, rep):
                        'configurations': len(TEMPLATES) * len(combos),
                        'events_per_request_max': max(len(b['events']) for b in blocks),
                        'long_histories': {'configs': len(LONG_TEMPLATES) * 6, 'length': LONG_LEN},
-                       'other_spellings': {'configs': len(TEMPLATES) * 2, 'history_length': SPELLING_DEPTH}},
+                       'other_spellings': {'configs': len(TEMPLATES) * 2, 'history_length': SPELLING_DEPTH},
+                       'values_family': {'templates': len(VALUE_TEMPLATES), 'configs': nvalue, 'history_length': vdepth,
+                                         'values_per_variable': len(VALUES), 'charsubs': 5, 'widths': [1, 2, 3]}},
             'blocks': nblocks, 'spelling_variant': sp, 'max_depth_completed': depth, 'state_cap_hit': bool(capped),
             'floors': {'evaluations': 20000, 'issued': 10000, 'result_ValueError': 100, 'merged': 1000}}
